@@ -662,6 +662,8 @@ class ParametersVisitor(LoggerProperty, ast.NodeVisitor):
                     container = getattr(module, node.func.value.id)
                 elif source:
                     container = self.get_component_from_source(node.func.value.id, source)
+                else:
+                    container = self.get_local_instance_class(node.func.value.id)
                 if inspect.isclass(container):
                     function_or_class = container
                     method_or_property = node.func.attr
@@ -671,6 +673,18 @@ class ParametersVisitor(LoggerProperty, ast.NodeVisitor):
             self.log_debug(f"not supported: {ast_str(node)}")
             return None
         return function_or_class, method_or_property
+
+    def get_local_instance_class(self, name: str) -> Optional[type]:
+        """Class of a local variable that is only assigned like ``name = SomeClass(...)``."""
+        class_type = None
+        for node in ast.walk(self.component_node):
+            if isinstance(node, (ast.Assign, ast.AnnAssign)):
+                if any(isinstance(t, ast.Name) and t.id == name for t in ast_get_assign_targets(node)):
+                    found = self.get_call_class_type(node.value)
+                    if found is None or class_type not in {None, found}:
+                        return None
+                    class_type = found
+        return class_type
 
     def match_call_that_uses_attr(self, node, source, attr_name):
         params = None
